@@ -327,3 +327,99 @@ Print Assumptions c05_order_instance.
 Print Assumptions c05_clock_only_in_creation_date.
 Print Assumptions c05_instance.
 Print Assumptions c05_tier_split_instance.
+
+(* ================================================================== X10: the url crate's normal form, concretely *)
+
+(** [norm] above is any function. For tracker-style URLs it is now a concrete one: Model/UrlNorm.v transcribes url 2.5.2
+    `Url::parse` + `to_string` (scheme, `//` authority with userinfo, host — X9's [u_hparse] for special schemes, the
+    opaque-host rules otherwise —, port, path with dot segments, query, fragment, the percent-encode sets, trimming and
+    tab / newline removal) with three outcomes: [None] outside the modelled fragment, [Some None] refused,
+    [Some (Some v)] normal form [v]; the `url_norm` hook is compared with it on every run (tools/props/urlnorm.py).
+    [is_normal_url] is a syntactic, decidable predicate: the text splits at its delimiters into pieces that the encoders
+    leave alone, host in printed form, port a non-default u16, no dot segment, and the pieces put together are the text. *)
+From Imdl Require Import Model.HostPort Model.UrlHost Model.UrlNorm Proofs.UrlNormProofs Proofs.UrlNormUses.
+
+Check u_norm : bytes -> option (option bytes).
+Check is_normal_url : bytes -> bool.
+
+(** a normal form is visible ASCII: no space, tab, LF, CR, control or non-ASCII byte *)
+Theorem c05_url_normal_form_is_visible_ascii :
+  forall u v, u_norm u = Some (Some v) -> forallb (fun b => (32 <? b) && (b <? 127)) v = true.
+Proof. exact u_norm_ascii. Qed.
+
+(** what was requested is stored exactly, for every URL written in normal form *)
+Theorem c05_url_norm_fixed : forall u, is_normal_url u = true -> u_norm u = Some (Some u).
+Proof. exact u_norm_fixed. Qed.
+
+(** whatever the parser returns is in normal form ... *)
+Theorem c05_url_norm_normal : forall u v, u_norm u = Some (Some v) -> is_normal_url v = true.
+Proof. exact u_norm_normal. Qed.
+
+(** ... hence a fixed point *)
+Theorem c05_url_norm_idempotent : forall u v, u_norm u = Some (Some v) -> u_norm v = Some (Some v).
+Proof. exact u_norm_idempotent. Qed.
+
+(** with the model as [norm]: `announce` / `update-url` equal the given text for every normal URL *)
+Theorem c05_normal_url_stored_verbatim :
+  forall ext host_canon git_suffix o c v,
+    build (u_norm_with ext) host_canon git_suffix o c = Some v ->
+    (forall u, o_announce o = Some u -> is_normal_url u = true -> vget (txt "announce") v = Some (Str u)) /\
+    (forall u, o_update_url o = Some u -> is_normal_url u = true -> iget (txt "update-url") v = Some (Str u)).
+Proof. exact normal_url_stored_verbatim. Qed.
+
+(** and re-creating from the stored value stores the same value *)
+Theorem c05_stored_url_is_a_fixed_point :
+  forall ext host_canon git_suffix o c v u s,
+    build (u_norm_with ext) host_canon git_suffix o c = Some v -> o_announce o = Some u -> u_norm u = Some (Some s) ->
+    vget (txt "announce") v = Some (Str s) /\ u_norm s = Some (Some s) /\
+    forall o' c' v', build (u_norm_with ext) host_canon git_suffix o' c' = Some v' ->
+      (o_announce o' = Some s -> vget (txt "announce") v' = Some (Str s)) /\
+      (o_update_url o' = Some s -> iget (txt "update-url") v' = Some (Str s)).
+Proof. exact stored_url_is_a_fixed_point. Qed.
+
+(** the predicate is inhabited: the URL shapes the checks use *)
+Example c05_normal_url_instances :
+  forallb is_normal_url
+    [txt "http://example.com/announce"; txt "https://tracker.example.org:8443/announce"; txt "udp://tracker.example:1337/announce";
+     txt "udp://tracker.example:1337"; txt "http://[2001:db8::1]:6969/announce"; txt "http://192.0.2.7:8080/a?x=1&y=2";
+     txt "wss://t.example/"; txt "https://example.com/path%20with%20space"; txt "http://user:pw@example.com/";
+     txt "https://example.com/feed.xml#frag"; txt "udp://EXAMPLE.com:80"; txt "udp://[::1]:5/a/b"; txt "x://h"] = true /\
+  forallb (fun u => negb (is_normal_url u))
+    [txt "HTTP://example.com/"; txt "http://example.com"; txt "http://example.com:80/"; txt "http://example.com:081/";
+     txt "http://example.com/a/../b"; txt "http://example.com/%2e/"; txt "http://example.com/a b"; txt "http://EXAMPLE.com/";
+     txt "http://[2001:DB8::1]/"; txt "http://u:@h/"; txt "http://h:/"; txt "mailto:x"; txt "file:///x"; txt "http:/h/"] = true.
+Proof. split; vm_compute; reflexivity. Qed.
+
+(** the recorded rows of URL_NORMALISING (tools/props/c05.py) that lie in the fragment, computed by the model *)
+Example c05_url_norm_rows :
+  u_norm (txt "HTTP://EXAMPLE.COM/Announce") = Some (Some (txt "http://example.com/Announce")) /\
+  u_norm (txt "http://example.com") = Some (Some (txt "http://example.com/")) /\
+  u_norm (txt "http://example.com:80/announce") = Some (Some (txt "http://example.com/announce")) /\
+  u_norm (txt "https://example.com:443/a/../b") = Some (Some (txt "https://example.com/b")) /\
+  u_norm (txt "http://example.com/a b") = Some (Some (txt "http://example.com/a%20b")) /\
+  u_norm (txt "udp://EXAMPLE.com:80") = Some (Some (txt "udp://EXAMPLE.com:80")) /\
+  u_norm (txt "http://[2001:DB8:0:0:0:0:0:1]:6969/x") = Some (Some (txt "http://[2001:db8::1]:6969/x")) /\
+  u_norm (txt "http://example.com/?q=a b#frag") = Some (Some (txt "http://example.com/?q=a%20b#frag")).
+Proof. repeat split; vm_compute; reflexivity. Qed.
+
+(** refusals, the edges of the fragment, and the oddities the transcription keeps *)
+Example c05_url_norm_edges :
+  u_norm (txt "http://") = Some None /\ u_norm (txt "notaurl") = Some None /\ u_norm (txt "http://h:65536/") = Some None /\
+  u_norm (txt "http://u@/") = Some None /\ u_norm (txt "udp://h\x") = Some None /\
+  u_norm (txt "mailto:x") = None /\ u_norm (txt "file:///x") = None /\ u_norm (txt "udp:/x") = None /\ u_norm (txt "http://a%41/") = None /\
+  u_norm (txt "http:\\a\b\..\c") = Some (Some (txt "http://a/c")) /\
+  u_norm (txt "http://h/a/c:/..") = Some (Some (txt "http://h/a/c:/")) /\
+  u_norm (txt "http://u:@h:00080/%2E%2e/x") = Some (Some (txt "http://u@h/x")) /\
+  u_norm (txt "udp://h:1\x") = Some (Some (txt "udp://h:1/\x")) /\
+  u_norm (txt "  http://0x7f.1/?'  ") = Some (Some (txt "http://127.0.0.1/?%27")).
+Proof. repeat split; vm_compute; reflexivity. Qed.
+
+Print Assumptions c05_url_normal_form_is_visible_ascii.
+Print Assumptions c05_url_norm_fixed.
+Print Assumptions c05_url_norm_normal.
+Print Assumptions c05_url_norm_idempotent.
+Print Assumptions c05_normal_url_stored_verbatim.
+Print Assumptions c05_stored_url_is_a_fixed_point.
+Print Assumptions c05_normal_url_instances.
+Print Assumptions c05_url_norm_rows.
+Print Assumptions c05_url_norm_edges.
